@@ -36,6 +36,11 @@ def cases(tier, seed):
             yield {"k": "fill", "sizes": sizes, "exact": False, "fill": name, "via": "disk"}
     for sizes in ([1], [3], [4, 1], [17], [34], [35]):
         yield {"k": "fill", "sizes": sizes, "exact": False, "fill": "default", "via": "virtual"}
+    # every file kind (different header / trailer sizes) at and around exact granule multiples of the stored stream
+    for kind in ("BAS", "DAT", "ASC", "ML"):
+        for k in (1, 2, 3):
+            for delta in (-2, -1, 0, 1, 2):
+                yield {"k": "fill", "sizes": [k], "exact": False, "fill": "default", "via": "disk", "kind": kind, "delta": delta}
     # synthetic configurations
     places = {"lowest": lambda f: list(range(f)), "highest": lambda f: list(range(68 - f, 68)),
               "around27": lambda f: sorted(range(68), key=lambda g: (abs(g - 27), g))[:f],
@@ -98,6 +103,8 @@ def check_case(case):
     if case["k"] == "fill":
         order = c07.order_by_name(case["fill"])
         cell = "fill|{}|{}|{}|{}".format("+".join(map(str, case["sizes"])), "exact" if case["exact"] else "inside", case["fill"], case["via"])
+        if "kind" in case:
+            cell += "|{}{:+d}".format(case["kind"], case["delta"])
         sizes = itertools.cycle(case["sizes"])
         td = None
         try:
@@ -114,6 +121,8 @@ def check_case(case):
                 k = next(sizes)
                 n = (k * 2304 - 10) if case["exact"] else (k * 2304 - 10 - 7)
                 s = c07.fspec("ML", n, "F{}".format(steps))
+                if "kind" in case:      # stream length = k granules + delta bytes
+                    s = c07.fspec(case["kind"], k * 2304 - c07.HDR[case["kind"]] + case["delta"], "F{}".format(steps), "DAT")
                 if n > 65535:       # a machine-language file cannot exceed its 16-bit length field; use a headerless file of the same stream length
                     s = c07.fspec("ASC", n + 10, "F{}".format(steps), "TXT")
                 raised = None
@@ -149,7 +158,7 @@ def check_case(case):
                 stored += 1
                 cur = new
             expect = None
-            if len(case["sizes"]) == 1 and not viol:
+            if len(case["sizes"]) == 1 and not viol and "kind" not in case:
                 k = case["sizes"][0] + (1 if case["exact"] else 0)
                 expect = 68 // k
                 if stored != expect:
